@@ -117,9 +117,10 @@ KIND = {
 NUM_RE = re.compile(r'[+-]?(?:[0-9]+(?:\.[0-9]*)?|\.[0-9]+)\Z', re.ASCII)
 ISO_RE = re.compile(r'(\d{4})-(\d{2})-(\d{2})(?:T00:00:00Z)?\Z')      # a midnight with a zone designator is that date
 
-# delivery-channel differential (core.Env): of every 2 evaluations that bind variables, one is repeated with the
-# values handed in by the cell/range listeners and one with the values returned by custom functions; outcomes must agree
-CHANNELS = 2
+# delivery-channel and host-type differential (core.Env): of every 3 evaluations that bind variables, one is repeated with the
+# values handed in by the cell/range listeners, one with the values returned by custom functions and one with every value an
+# instance of a trivial subclass of its type (numpy.float64, IntEnum, rich-text str ... are such); outcomes must agree
+CHANNELS = 3
 
 BOUNDS = {
     'quick': '26 scalars (8 ints, 4 decimals, 2 logicals, blank, 3 numeric texts, 2 other texts, 5 date(-time)s '
